@@ -445,8 +445,13 @@ pub fn block_on<F: Future>(f: F) -> (F::Output, u64) {
     }
 }
 
+/// Marker stored in the request's extensions by `build_request`.
+#[derive(Clone, Debug, PartialEq)]
+pub struct ExtensionMarker(pub u32);
+
 #[derive(Clone, Debug, PartialEq)]
 pub struct Returned {
+    pub extension_kept: bool,
     pub method: String,
     pub uri: String,
     pub version: String,
@@ -473,7 +478,15 @@ pub struct ValOut {
 }
 
 pub fn build_request(c: &Case) -> Option<Request<Bytes>> {
-    let mut b = Request::builder().method(c.method.as_bytes()).uri(c.uri.as_str());
+    let version = match c.version {
+        9 => http::Version::HTTP_09,
+        10 => http::Version::HTTP_10,
+        2 => http::Version::HTTP_2,
+        3 => http::Version::HTTP_3,
+        _ => http::Version::HTTP_11,
+    };
+    // an extension value travels with the request parts; it must come back with them
+    let mut b = Request::builder().method(c.method.as_bytes()).uri(c.uri.as_str()).version(version).extension(ExtensionMarker(0x51671));
     for (n, v) in &c.headers {
         let name = http::header::HeaderName::from_bytes(n.as_bytes()).ok()?;
         let value = http::header::HeaderValue::from_bytes(v).ok()?;
@@ -570,6 +583,7 @@ pub fn validate_with(c: &Case, req: Request<Bytes>, prov: &mut Provider) -> ValO
         Ok(Ok((parts, body, resp))) => {
             out.class = "OK".to_string();
             out.returned = Some(Returned {
+                extension_kept: parts.extensions.get::<ExtensionMarker>() == Some(&ExtensionMarker(0x51671)),
                 method: parts.method.to_string(),
                 uri: parts.uri.to_string(),
                 version: format!("{:?}", parts.version),
